@@ -255,3 +255,66 @@ impl Footer for SpyJsonFooter {
         r.map(|j| SpyJsonFooter(j.0))
     }
 }
+
+/// Application claims as users write them: paseto-json's RegisteredClaims flattened into a struct next to private members, among
+/// them floats, an untagged and an internally tagged enum (serde buffers those through its Content type).  Carried by Json<T>.
+#[derive(Clone, Debug, PartialEq, serde::Serialize, serde::Deserialize)]
+pub struct Session {
+    pub uid: u64,
+    pub trust: f64,
+}
+#[derive(Clone, Debug, PartialEq, serde::Serialize, serde::Deserialize)]
+#[serde(untagged)]
+pub enum Amount {
+    Whole(u64),
+    Real(f64),
+    Text(String),
+}
+#[derive(Clone, Debug, PartialEq, serde::Serialize, serde::Deserialize)]
+#[serde(tag = "kind")]
+pub enum Grant {
+    Read { ratio: f32 },
+    Write { quota: u32 },
+}
+#[derive(Clone, Debug, serde::Serialize, serde::Deserialize)]
+pub struct AppClaims {
+    #[serde(flatten)]
+    pub registered: paseto_json::RegisteredClaims,
+    pub role: String,
+    #[serde(flatten)]
+    pub session: Session,
+    pub amount: Amount,
+    pub grant: Grant,
+}
+
+pub fn app_identity(c: &AppClaims) -> Vec<u8> {
+    format!("{c:?}").into_bytes()
+}
+
+#[derive(Clone, Debug)]
+pub struct SpyApp(pub AppClaims);
+
+impl Payload for SpyApp {
+    const SUFFIX: &'static str = "";
+    fn encode(self, w: impl WriteBytes) -> Result<(), Box<dyn Error + Send + Sync>> {
+        log(Spy::ClaimsEncode { ok: true });
+        paseto_json::Json(self.0).encode(w)
+    }
+    fn decode(p: &[u8]) -> Result<Self, Box<dyn Error + Send + Sync>> {
+        let r = <paseto_json::Json<AppClaims> as Payload>::decode(p);
+        match &r {
+            Ok(c) => log(Spy::Decode { bytes: app_identity(&c.0), ok: true }),
+            Err(_) => log(Spy::Decode { bytes: p.to_vec(), ok: false }),
+        }
+        r.map(|j| SpyApp(j.0))
+    }
+}
+
+pub struct AcceptApp;
+impl Validate for AcceptApp {
+    type Claims = SpyApp;
+    fn validate(&self, claims: &SpyApp) -> Result<(), PasetoError> {
+        log(Spy::Validate { claims: app_identity(&claims.0), verdict: true });
+        Ok(())
+    }
+}
